@@ -12,7 +12,7 @@
     proof or the correspondence breaks, to search for a concrete failing input. *)
 From Coq Require Import NArith Bool.
 From stdpp Require Import base list numbers option.
-From Gecs Require Import Prim ExtrBits Storage Query World Run.
+From Gecs Require Import Prim ExtrBits Storage Query World Run QuerySpec.
 Local Open Scope nat_scope.
 
 (** (property number, reason code) *)
@@ -84,15 +84,6 @@ Fixpoint take_outcomes (shape : list nat) (obs : list N) : option (list outcome)
 Definition clean_panic (p : N) : bool := N.eqb p 5 || N.eqb p 6.   (* debug assertion; "invalid entity type" *)
 
 (* ---------------------------------------------------------------- declarative query matching (C05) *)
-
-Definition sat_param (a : darch) (p : qparam) : bool :=
-  match p_type p with
-  | PComp c => contains_component a c
-  | PEnt n | PDir n => Nat.eqb (da_name a) n
-  | PEntWild | PEntAny | PDirWild | PDirAny => true
-  | POneOf cs => Nat.eqb (length (filter (fun c => contains_component a c = true) cs)) 1
-  end.
-Definition sat (a : darch) (ps : list qparam) : bool := forallb (sat_param a) ps.
 
 (** What each parameter shows: a component column (with mutability), the entity, or a direct handle. *)
 Definition spec_access (d : wdecl) (a : darch) (p : qparam) : option access :=
